@@ -138,7 +138,7 @@ def check_input(tc, data, ev, lib="aldor", confirm=True):
     ev.classes["rc_nonzero" if r.rc != 0 else "rc_zero"] += 1
     if what is None:
         return None, haserr, r.rc
-    return Fail({"kind": kind, "site": site, "what": "%s [%s] on input of %d bytes: %s" % (what, site, len(data), t[-200:].replace("\n", " | "))},
+    return Fail({"kind": kind, "site": site, "what": "%s [%s] on input of %d bytes: %s" % (what, site, len(data), (t[-200:] + " || stderr: " + err[-150:]).replace("\n", " | "))},
                 {"input_hex": data.hex(), "lib": lib}), haserr, r.rc
 
 
